@@ -238,3 +238,244 @@ fn verif_loom_two_writers() {
     });
     std::println!("VERIF_LOOM scenario={raw_out} executions={}", states.load(core::sync::atomic::Ordering::Relaxed));
 }
+
+// ------------------------------------------------------------------------------------------
+// Flow-id allocation ‖ flow-id allocation ‖ the task accepting the peer's `Connect`
+// ------------------------------------------------------------------------------------------
+
+/// Flow-id generator that hands out a script, then values nobody else uses.
+struct ScriptRng(alloc::collections::VecDeque<u32>, u32);
+impl rand::TryRng for ScriptRng {
+    type Error = core::convert::Infallible;
+    fn try_next_u32(&mut self) -> core::result::Result<u32, Self::Error> {
+        Ok(self.0.pop_front().unwrap_or_else(|| {
+            self.1 += 1;
+            0x1000 + self.1
+        }))
+    }
+    fn try_next_u64(&mut self) -> core::result::Result<u64, Self::Error> {
+        Ok(u64::from(self.try_next_u32()?))
+    }
+    fn try_fill_bytes(&mut self, d: &mut [u8]) -> core::result::Result<(), Self::Error> {
+        for b in d {
+            *b = self.try_next_u32()? as u8;
+        }
+        Ok(())
+    }
+}
+
+/// A transport nobody touches in this model.
+struct NoWs;
+impl crate::ws::WebSocket for NoWs {
+    fn poll_ready_unpin(&mut self, _: &mut Context<'_>) -> Poll<crate::Result<()>> {
+        unreachable!()
+    }
+    fn start_send_unpin(&mut self, _: crate::ws::Message) -> crate::Result<()> {
+        unreachable!()
+    }
+    fn poll_flush_unpin(&mut self, _: &mut Context<'_>) -> Poll<crate::Result<()>> {
+        unreachable!()
+    }
+    fn poll_close_unpin(&mut self, _: &mut Context<'_>) -> Poll<crate::Result<()>> {
+        unreachable!()
+    }
+    fn poll_next_unpin(&mut self, _: &mut Context<'_>) -> Poll<Option<crate::Result<crate::ws::Message>>> {
+        unreachable!()
+    }
+}
+
+#[derive(Clone, Copy, Debug, PartialEq)]
+struct NoClock;
+impl crate::timing::TimestampProvider for NoClock {
+    fn now() -> Self {
+        Self
+    }
+    fn duration_since(&self, _: Self) -> core::time::Duration {
+        core::time::Duration::ZERO
+    }
+}
+
+/// Application threads opening streams / requesting binds (`Multiplexor::insert_new_flow`, the
+/// allocation step of `new_stream_channel` and `request_bind`) while the connection task, on its
+/// own thread, processes the peer's `Connect` frames (`Task::con_recv_new_stream`), all over the
+/// one shared flow map, with a scripted generator that makes the ids collide.
+///
+/// Scenario `VERIF_LOOM_SCENARIO=ids,<actors>,<script>`: actors is a string over `o` (local
+/// open), `b` (local bind request) and `p<id>` (peer `Connect` with that id, e.g. `p7`), script a
+/// `+`-separated list of the values the generator yields first (`0` included on purpose).
+///
+/// Oracles, after every thread has been joined:
+///  (a) every id handed to a local request is non-zero and no two local requests share one;
+///  (b) the slot of each local request is still in the map and still of the kind inserted
+///      (nobody overwrote it);
+///  (c) a peer `Connect` was answered with exactly one of `Acknowledge` / `Reset`; if
+///      acknowledged, its id belongs to no local request, the map holds an established flow
+///      under it and the stream is in the accept queue; if reset, nothing of it is left;
+///  (d) the map holds exactly the flows accounted for above.
+#[test]
+fn verif_loom_flow_ids() {
+    use crate::frame::{Frame, OpCode, Payload};
+    let raw = std::env::var("VERIF_LOOM_SCENARIO").unwrap_or_else(|_| String::from("ids,oo,7+7"));
+    let mut it = raw.split(',');
+    let _ = it.next();
+    let actors_raw = String::from(it.next().unwrap_or("oo"));
+    let script: Vec<u32> = it
+        .next()
+        .unwrap_or("")
+        .split('+')
+        .filter_map(|s| s.parse().ok())
+        .collect();
+    #[derive(Clone, Copy, Debug, PartialEq)]
+    enum Actor {
+        Open,
+        Bind,
+        Peer(u32),
+    }
+    let mut actors = Vec::new();
+    let mut chars = actors_raw.chars().peekable();
+    while let Some(c) = chars.next() {
+        match c {
+            'o' => actors.push(Actor::Open),
+            'b' => actors.push(Actor::Bind),
+            'p' => {
+                let mut n = 0u32;
+                while let Some(d) = chars.peek().and_then(|d| d.to_digit(10)) {
+                    n = n * 10 + d;
+                    chars.next();
+                }
+                actors.push(Actor::Peer(n));
+            }
+            _ => {}
+        }
+    }
+    let states = alloc::sync::Arc::new(core::sync::atomic::AtomicU64::new(0));
+    let st2 = states.clone();
+    let raw_out = raw.clone();
+    let mut b = loom::model::Builder::new();
+    if let Ok(p) = std::env::var("VERIF_LOOM_PREEMPTION_BOUND") {
+        b.preemption_bound = p.parse().ok();
+    }
+    b.check(move || {
+        st2.fetch_add(1, core::sync::atomic::Ordering::Relaxed);
+        let rng = ScriptRng(script.iter().copied().collect(), 0);
+        let (mux, taskdata) = crate::Multiplexor::new_detailed::<NoWs, NoClock>(
+            NoWs,
+            crate::config::Options::new().bind_buffer_size(4),
+            rng,
+        );
+        let crate::task::TaskData { task, mut tx_msg_rx, dropped_flows_rx } = taskdata;
+        let mux = alloc::sync::Arc::new(mux);
+        let task = alloc::sync::Arc::new(task);
+        // (kind, id, receiver kept alive so that the slot stays meaningful)
+        enum Done {
+            Open(u32, tokio::sync::oneshot::Receiver<Option<MuxStream>>),
+            Bind(u32, tokio::sync::oneshot::Receiver<bool>),
+            Peer(u32),
+        }
+        let mut handles = Vec::new();
+        for a in actors.iter().copied() {
+            let mux = mux.clone();
+            let task = task.clone();
+            handles.push(loom::thread::spawn(move || match a {
+                Actor::Open => {
+                    let (tx, rx) = tokio::sync::oneshot::channel();
+                    Done::Open(mux.insert_new_flow(crate::FlowSlot::Requested(tx)), rx)
+                }
+                Actor::Bind => {
+                    let (tx, rx) = tokio::sync::oneshot::channel();
+                    Done::Bind(mux.insert_new_flow(crate::FlowSlot::BindRequested(tx)), rx)
+                }
+                Actor::Peer(id) => {
+                    let frame = Frame::new_connect(b"h", 80, id, 8);
+                    loom::future::block_on(task.verif_process_frame(frame))
+                        .expect("the task failed on a `Connect` frame");
+                    Done::Peer(id)
+                }
+            }));
+        }
+        let done: Vec<Done> = handles.into_iter().map(|h| h.join().unwrap()).collect();
+        // What the task queued for the peer
+        let mut acked = Vec::new();
+        let mut reset = Vec::new();
+        while let Ok(msg) = tx_msg_rx.try_recv() {
+            let crate::ws::Message::Binary(bytes) = msg else {
+                panic!("[{raw}] FLOWID: unexpected message queued");
+            };
+            let frame = Frame::try_from(bytes).expect("undecodable frame queued");
+            match (frame.opcode(), &frame.payload) {
+                (OpCode::Acknowledge, Payload::Acknowledge(_)) => acked.push(frame.id),
+                (OpCode::Reset, _) => reset.push(frame.id),
+                other => panic!("[{raw}] FLOWID: unexpected frame queued: {other:?}"),
+            }
+        }
+        let flows = mux.flows.read();
+        let mut local_ids = Vec::new();
+        let mut expected_len = 0usize;
+        for d in &done {
+            match d {
+                Done::Open(id, _) | Done::Bind(id, _) => {
+                    assert!(*id != 0, "[{raw}] FLOWID: a local request was given flow id 0");
+                    assert!(
+                        !local_ids.contains(id),
+                        "[{raw}] FLOWID: two pending local requests were given the same flow id {id}"
+                    );
+                    local_ids.push(*id);
+                    expected_len += 1;
+                    let kind_ok = match (d, flows.get(id)) {
+                        (Done::Open(..), Some(crate::FlowSlot::Requested(_)))
+                        | (Done::Bind(..), Some(crate::FlowSlot::BindRequested(_))) => true,
+                        _ => false,
+                    };
+                    assert!(
+                        kind_ok,
+                        "[{raw}] FLOWID: the slot of the pending local request with id {id} was overwritten or removed"
+                    );
+                }
+                Done::Peer(_) => {}
+            }
+        }
+        let mut accepted = 0usize;
+        for d in &done {
+            if let Done::Peer(id) = d {
+                let a = acked.iter().filter(|x| *x == id).count();
+                let r = reset.iter().filter(|x| *x == id).count();
+                assert!(
+                    a + r == 1,
+                    "[{raw}] FLOWID: the peer's Connect({id}) was answered with {a} Acknowledge and {r} Reset frames"
+                );
+                if a == 1 {
+                    assert!(
+                        *id != 0 && !local_ids.contains(id),
+                        "[{raw}] FLOWID: the peer's Connect({id}) was acknowledged although a local request uses that id"
+                    );
+                    assert!(
+                        matches!(flows.get(id), Some(crate::FlowSlot::Established(_))),
+                        "[{raw}] FLOWID: Connect({id}) acknowledged but no established flow in the map"
+                    );
+                    expected_len += 1;
+                    accepted += 1;
+                }
+            }
+        }
+        assert_eq!(
+            flows.len(),
+            expected_len,
+            "[{raw}] FLOWID: the map holds {} flows, {expected_len} are accounted for",
+            flows.len()
+        );
+        drop(flows);
+        let mut queued = 0usize;
+        {
+            let mut rx = mux.con_recv_stream_rx.try_lock().expect("accept queue locked");
+            while let Ok(s) = rx.try_recv() {
+                queued += 1;
+                drop(s);
+            }
+        }
+        assert_eq!(queued, accepted, "[{raw}] FLOWID: {accepted} Connects acknowledged, {queued} streams in the accept queue");
+        // Leave without running the (irrelevant here) drop protocols against half a connection
+        drop(done);
+        drop(dropped_flows_rx);
+    });
+    std::println!("VERIF_LOOM scenario={raw_out} executions={}", states.load(core::sync::atomic::Ordering::Relaxed));
+}
